@@ -448,7 +448,7 @@ def _r68(F, flat):
         c = callee(t)
         if c == "ucglib::build::opcode::translate::AST::translate":
             labs = oc.at(t["args"][1], b)
-            ok = "std::path::Path::parent" in calls_in(labs)
+            ok = util.derives_from_call(F, labs, "std::path::Path::parent")
             r.inst("base:translate", cl.where(b), ok, "root = parent() of the loaded path" if ok else "translate root is not the file's parent directory")
         if c == "ucglib::ast::typecheck::Checker::with_working_dir":
             labs = oc.at(t["args"][1], b)
